@@ -1,7 +1,7 @@
 import NodisVerif.Proofs.C04Rem
 /-
   Cursors as streams: what a walk from a skiplist node sees is the list of items ahead of it in the
-  direction of the walk.  `walk`, `skipN` and `scoreLoop` are functions of that list only.
+  direction of the walk.  `walk` and `scoreLoop` are functions of that list only.
 -/
 namespace NodisVerif.Proofs.C04
 open AListLemmas ZSetLemmas DsZSet
@@ -89,77 +89,34 @@ theorem ostream_cursorAt_desc (sl : List Item) (i : Nat) :
     rw [List.take_succ_eq_append_getElem hlt, hc]
     simp
 
-/-! ### `skipN` -/
-
-theorem ostream_skipN (desc : Bool) : ∀ (n : Nat) (off : Int) (oc : Option Cursor), off.toNat = n →
-    ostream desc (skipN desc oc off) = (ostream desc oc).drop off.toNat := by
-  intro n
-  induction n with
-  | zero =>
-    intro off oc hn
-    cases oc with
-    | none => rw [skipN]; simp [ostream]
-    | some c =>
-      rw [skipN]
-      have : off ≤ 0 := by omega
-      simp [this, hn]
-  | succ n ih =>
-    intro off oc hn
-    cases oc with
-    | none => rw [skipN]; simp [ostream]
-    | some c =>
-      rw [skipN]
-      have hpos : ¬ off ≤ 0 := by omega
-      simp only [hpos, if_false]
-      have hst := ostream_step desc c
-      unfold step at hst
-      cases hs : (if desc = true then c.prev else c.next) with
-      | none =>
-        rw [hs] at hst
-        simp only
-        have htail : (Cursor.stream desc c).tail = [] := by rw [← hst]; rfl
-        have : ostream desc (some c) = [c.cur] := by
-          show c.cur :: (Cursor.stream desc c).tail = [c.cur]
-          rw [htail]
-        rw [this, hn]
-        simp [ostream]
-      | some c' =>
-        rw [hs] at hst
-        simp only
-        rw [ih (off - 1) (some c') (by omega), hst]
-        have : ostream desc (some c) = c.cur :: (Cursor.stream desc c).tail := rfl
-        rw [this, hn]
-        have : (off - 1).toNat = n := by omega
-        rw [this, List.drop_succ_cons]
-
 /-! ### the score loop on streams -/
 
-def loopS (min max : F64) (mode : Nat) (limit : Int) : List Item → Nat → Nat → List Item → List Item
+/-- `scoreLoop` as a function of the list of items the walk meets -/
+def loopS (min max : F64) (mode : Nat) (limit : Int) : List Item → Int → Nat → List Item → List Item
   | [], _, _, acc => acc.reverse
   | _ :: _, _, 0, acc => acc.reverse
-  | c :: rest, i, fuel + 1, acc =>
-    if !((i : Int) < limit ∨ limit < 0) then acc.reverse else
-    let skip := (mode % 2 = 1 ∧ F64.eq c.1 min) ∨ (mode / 2 % 2 = 1 ∧ F64.eq c.1 max)
-    let acc := if skip then acc else c :: acc
-    match rest with
-    | [] => acc.reverse
-    | c' :: _ =>
-      if !(F64.le min c'.1) ∨ !(F64.ge max c'.1) then acc.reverse
-      else loopS min max mode limit rest (i + 1) fuel acc
+  | c :: rest, offset, fuel + 1, acc =>
+    if !(F64.le min c.1 && F64.le c.1 max) then acc.reverse else
+    if (mode % 2 = 1 ∧ F64.eq c.1 min) ∨ (mode / 2 % 2 = 1 ∧ F64.eq c.1 max) then
+      loopS min max mode limit rest offset fuel acc
+    else if offset > 0 then loopS min max mode limit rest (offset - 1) fuel acc
+    else
+      if limit > 0 ∧ (((c :: acc).length : Nat) : Int) = limit then (c :: acc).reverse
+      else loopS min max mode limit rest offset fuel (c :: acc)
 
 theorem scoreLoop_eq (desc : Bool) (min max : F64) (mode : Nat) (limit : Int) :
-    ∀ (fuel : Nat) (oc : Option Cursor) (i : Nat) (acc : List Item),
-      scoreLoop desc min max mode limit oc i fuel acc
-        = loopS min max mode limit (ostream desc oc) i fuel acc := by
+    ∀ (fuel : Nat) (oc : Option Cursor) (offset : Int) (acc : List Item),
+      scoreLoop desc min max mode limit oc offset fuel acc
+        = loopS min max mode limit (ostream desc oc) offset fuel acc := by
   intro fuel
   induction fuel with
   | zero =>
-    intro oc i acc
+    intro oc offset acc
     cases oc with
     | none => simp [scoreLoop, ostream, loopS]
     | some c => simp [scoreLoop, ostream, Cursor.stream, loopS]
   | succ fuel ih =>
-    intro oc i acc
+    intro oc offset acc
     cases oc with
     | none => simp [scoreLoop, ostream, loopS]
     | some c =>
@@ -168,22 +125,6 @@ theorem scoreLoop_eq (desc : Bool) (min max : F64) (mode : Nat) (limit : Int) :
       have hs : ostream desc (some c) = c.cur :: (Cursor.stream desc c).tail := rfl
       rw [hs]
       unfold scoreLoop loopS
-      split
-      · rfl
-      · simp only
-        cases hn : (if desc = true then c.prev else c.next) with
-        | none =>
-          rw [hn] at hst
-          have htail : (Cursor.stream desc c).tail = [] := by rw [← hst]; rfl
-          rw [htail]
-        | some c' =>
-          rw [hn] at hst
-          have htail : (Cursor.stream desc c).tail = c'.cur :: (Cursor.stream desc c').tail := by
-            rw [← hst]; rfl
-          rw [htail]
-          simp only
-          split
-          · rfl
-          · rw [ih, ← htail, ← hst]
+      simp only [ih, hst]
 
 end NodisVerif.Proofs.C04
